@@ -112,10 +112,10 @@ CLAIMED = {
          "COLRv1) dumped with every option set into mixed-case paths and re-imported — all option sets give the same table bytes, generation 1 "
          "and 2 are byte and text fixed points, generation 0 and 1 agree through HarfBuzz (testing). Known finding F11 (pre-1970 timestamps).",
          "Rocq proof of escaping round trips + correspondence to xmlWriter/expat + TTX generation/option sweeps"),
- "C12": ("Theorem generalize_preserves: for rmoveto/hmoveto/vmoveto/rlineto/hlineto/vlineto/rrcurveto/hhcurveto/vvcurveto and EVERY "
+ "C12": ("Theorem generalize_preserves_all: for ALL 13 Type 2 path operators (incl. the alternating hv/vhcurveto families, rcurveline, rlinecurve) and EVERY "
          "argument list the generaliser accepts, interpreting the generalised commands draws exactly what the interpreter draws for the "
          "original operator — two independent transcriptions (T2OutlineExtractor vs _GeneralizerDecombinerCommandsMap), by induction over the "
-         "argument list. Both transcriptions (all 13 path operators incl. hv/vhcurveto, rcurveline, rlinecurve) are tied to the code by "
+         "argument list. Both transcriptions are tied to the code by "
          "correspondence over every arity 0..26. On the implementation: an independent Type 2 interpreter written from TN#5177 vs "
          "T2CharString.draw, specialise/generalise (with and without topology) modulo the fill-preserving equivalence, operand-stack limit and "
          "arities of emitted programs, bytecode compile/decompile, width re-encoding, and desubroutinize / remove_hints / CFF<->CFF2 on corpus "
